@@ -12,6 +12,7 @@ pub fn fuzz_one(data: &[u8]) {
         let id = std::env::var("VP_PROP").expect("VP_PROP must name the property");
         let text_mode = TEXT_PROPS.contains(&id.as_str()) && std::env::var("VP_FUZZ_TAPE").is_err();
         crate::worker::install_quiet_panic_hook();
+        crate::LIGHT_MODE.store(true, std::sync::atomic::Ordering::Relaxed);
         let p = crate::lookup(&id).expect("unknown property");
         (id, p, text_mode)
     });
